@@ -108,6 +108,8 @@ FIXED = [
     ("C15", "cceea8f", "a function with 300 variables was refused with `operand 286 of STORE_LOCAL exceeds 255` under PYTHONHASHSEED=1 and `operand 265 ...` under 2: slot numbers followed set iteration order and were printed in the message"),
     ("C08", "cd3a517", "`[1,2,3]['01']`, `['+1']`, `[' 1 ']`, `['1_0']`, `['\u0661']` all read element 1, `a['01']=9` could not be read back and hasOwnProperty('01') disagreed with `in`: key-to-index conversion with int() without comparing the spelling"),
     ("C04", "0f614d1", "`1\u00b2` let a Python ValueError escape eval, `\u0663 + 1` was 4, `/a{\u0663}/` a counted quantifier, `parseFloat('\u0663.5')` 3.5: digits selected with str.isdigit() and parsed by int()/float()"),
+    ("C18", "481c111", "`(2**60).toString()` printed 1152921504606846976 (ECMAScript: 1152921504606847000), `(1e21).toString()` 22 digits, `(1e-7).toString()` the host spelling 1e-07: a private decimal path built on str()/int()"),
+    ("C16", "7bdc03d", "`'abc'.startsWith('c', -1)` was true, `'abc'.includes('a', -1)` false, `'abc'.lastIndexOf('a', -5)` -1, `'abc'.indexOf('', 10)` -1: script positions used as Python slice bounds while negative / unclamped"),
 ]
 
 
